@@ -209,6 +209,13 @@ Definition round_trip_timed {A} (q : request) (c : origin_reply -> Z -> Z -> pro
     | RResp r => c (RResp (with_hdr r (fix_date_header (p_hdr r) stop))) start stop
     end))).
 
+(* the fields named by a qualified no-cache are removed from what is handed out without validation *)
+Definition strip_qualified (qualified : option (list bytes)) (h : headers) : headers :=
+  match qualified with
+  | Some fields => fold_left (fun acc fld => hdel fld acc) fields h
+  | None => h
+  end.
+
 (* ---- internal/validationresponsehandler.go ---- *)
 Record reval_ctx := {
   rc_url_key : bytes; rc_start : Z; rc_end : Z; rc_cc_req : directives;
@@ -255,7 +262,9 @@ Definition handle_validation_response (ctx : reval_ctx) (q : request) (rep : ori
       Now (fun now =>
         if can_stale_on_error (rc_fresh ctx)
              [resp_stale_if_error stored_cc; req_stale_if_error (rc_cc_req ctx)] now then
-          let h := hset (bs "Age") (age_header_value (rc_fresh ctx) now) (e_hdr stored) in
+          (* the validation did not succeed: the fields named by a qualified no-cache are not replayed *)
+          let h0 := strip_qualified (match resp_no_cache stored_cc with Some raw => no_cache_fields raw | None => None end) (e_hdr stored) in
+          let h := hset (bs "Age") (age_header_value (rc_fresh ctx) now) h0 in
           Ret (OResp (response_of (entry_with_hdr stored (apply_status STALE h))))
         else after_sie)
     else after_sie.
@@ -276,12 +285,6 @@ Definition handle_cache_miss (q : request) (url_key : bytes) (refs : list (optio
             Ret (OResp (with_hdr r1 (apply_status MISS (p_hdr r1))))
           else Ret (OResp (with_hdr r (apply_status MISS (p_hdr r))))
       end).
-
-Definition strip_qualified (qualified : option (list bytes)) (h : headers) : headers :=
-  match qualified with
-  | Some fields => fold_left (fun acc fld => hdel fld acc) fields h
-  | None => h
-  end.
 
 Definition serve_from_cache (stored : stored_entry) (f : freshness) (now : Z)
            (qualified : option (list bytes)) : outcome :=
